@@ -72,7 +72,9 @@ class C12(Prop):
     fuzz = {'thorough': {'runs': 3000, 'max_time': 60, 'procs': 4}}
 
     def strategy(self, tier):
-        cost = st.one_of(st.sampled_from([0, 1, 1, 8, 27, 64, 125, 512]), st.integers(0, 20))
+        cost = st.one_of(st.sampled_from([0, 1, 1, 8, 27, 64, 125, 512]), st.integers(0, 20),
+                         # costs are floats by annotation: fractions (e.g. shares of the total work), exactly summable
+                         st.sampled_from([0.25, 0.5, 0.75, 1.5, 2.5, 0.125]))
 
         @st.composite
         def gen(draw):
